@@ -2,6 +2,7 @@
 import GoCo.Driver.Sexp
 import GoCo.Iters.Model
 import GoCo.Compile.RangeLower
+import GoCo.Compile.EtaDecision
 set_option autoImplicit false
 
 namespace GoCo.Iters
@@ -29,6 +30,23 @@ def itersRequest : Sexp → Option String
       let showSet (x : RL.Tok × Nat × Bool) : String :=
         (if x.1 = .define then ":=" else "=") ++ " " ++ (if x.2.1 = 1 then "k" else "v") ++ " " ++ (if x.2.2 then "Key" else "Val")
       some s!"sets=[{"; ".intercalate (l.sets.map showSet)}] nested={l.nested}"
+  | .list [.atom "k11", .atom callee, .atom args, .atom ty] => do
+      let c ← (match callee with
+        | "declared" => some (EtaD.Callee.declared false false)
+        | "declared-generic" => some (.declared true false)
+        | "declared-generic-inst" => some (.declared true true)
+        | "pkgfunc" => some (.pkgFunc false false)
+        | "pkgfunc-generic" => some (.pkgFunc true false)
+        | "pkgfunc-generic-inst" => some (.pkgFunc true true)
+        | "localvar" => some .localVar | "field" => some .field
+        | "method-itervar" => some .methodOfIterVar | "method-uservar" => some .methodOfUserVar
+        | "method-expr" => some .methodOfExpr | "conversion" => some .conversion | "builtin" => some .builtin
+        | "indexed" => some .indexed | "callresult" => some .callResult
+        | _ => none)
+      let a ← (match args with
+        | "same" => some EtaD.Args.same | "permuted" => some .permuted | "duplicated" => some .duplicated
+        | "nonident" => some .nonIdent | "fewer" => some .fewer | _ => none)
+      some (if EtaD.etaOK ⟨c, a, ty = "sametype"⟩ then "reduced" else "kept")
   | _ => none
 
 end GoCo.Iters
